@@ -139,14 +139,13 @@ def run(ctx):
     stim = {}
     nid = [0]
 
-    def add(rec, target, line):
-        if target == "py" and rec["ev"] in ("setu", "setf") and len(rec["out"]) != len(rec["buf"]):
-            # Serializer.buffer exposes the written prefix only: compare that region (it must still hold the addressed range)
-            rec = dict(rec, buf=rec["buf"][:len(rec["out"])], size=len(rec["out"]))
+    def add(rec, target, line, pyop=None):
+        if target == "py":
+            rec = py_prefix(rec)
         nid[0] += 1
         rec = dict(rec, id=nid[0])
         records.append(rec)
-        stim[nid[0]] = {"target": target, "cmd": line, "ev": rec["ev"]}
+        stim[nid[0]] = {"target": target, "cmd": line, "ev": rec["ev"], "pyop": pyop}
         ctx.count()
         key = (rec["ev"], target, rec.get("off", rec.get("do")), rec.get("len"), rec.get("size"), rec.get("W"))
         ctx.distinct("|".join(map(str, key)) + "|" + str(hash(line) % 9973), nontrivial=rec.get("len", 1) != 0)
@@ -193,49 +192,14 @@ def run(ctx):
                     if ha is not None and hb is not None:
                         add({"ev": "mono", "a": list(struct.pack("<I", a)), "b": list(struct.pack("<I", b)), "ha": ha, "hb": hb}, nt.name, "mono %x %x" % (a, b))
             prev = p
-    # 3. Python support library
+    # 3. Python support library: a primitive that raises on a call the contract defines is a call without a result (prim.noret)
     py = PyPrims(ctx)
-    npy = 0
-    for off in ([0, 1, 3, 8, 13, 16] if ctx.quick else range(0, 24)):
-        for ln in ([1, 2, 7, 8, 9, 16, 17, 32, 33, 63, 64] if ctx.quick else range(1, 65)):
-            size = (off + ln + 7) // 8 + 1
-            v = rng.getrandbits(ln)
-            out = py.set_int(size, off, v, ln, False)
-            add({"ev": "setu", "buf": [0] * size, "size": size, "off": off, "len": ln, "val": list(struct.pack("<Q", v)), "rc": "none", "out": list(out), "kinds": False}, "py", "set_int u %d %d %d" % (off, ln, v))
-            if ln >= 2:
-                sv = v - (1 << ln) if v >> (ln - 1) else v
-                out = py.set_int(size, off, sv, ln, True)
-                add({"ev": "setu", "buf": [0] * size, "size": size, "off": off, "len": ln, "val": list(struct.pack("<Q", sv & ((1 << 64) - 1))), "rc": "none", "out": list(out), "kinds": False}, "py", "set_int s %d %d %d" % (off, ln, sv))
-            for dsize in {size, max(size - 2, 0), 0, (off + ln) // 8}:
-                data = bytes(rng.getrandbits(8) for _ in range(dsize))
-                got = py.get_int(data, off, ln, False)
-                add({"ev": "getu", "W": 64, "buf": list(data), "size": dsize, "off": off, "len": ln, "val": list(struct.pack("<Q", got))}, "py", "get_int u %d %d %s" % (off, ln, data.hex()))
-                if ln >= 2:
-                    got = py.get_int(data, off, ln, True)
-                    add({"ev": "geti", "W": 64, "buf": list(data), "size": dsize, "off": off, "len": ln, "val": list(struct.pack("<q", got))}, "py", "get_int s %d %d %s" % (off, ln, data.hex()))
-            npy += 1
-        for W in (16, 32, 64):
-            size = (off + W + 7) // 8 + 1
-            pat = rng.getrandbits(W)
-            x = struct.unpack({16: "<e", 32: "<f", 64: "<d"}[W], pat.to_bytes(W // 8, "little"))[0]
-            if x == x:
-                out = py.set_float(size, off, W, x)
-                # the value handed over is exactly representable: the written pattern must be the same number
-                add({"ev": "setf", "W": W if W != 16 else 16, "buf": [0] * size, "size": size, "off": off, "f": list(struct.pack("<d" if W == 64 else "<f", x)), "rc": "none", "out": list(out)}, "py", "set_float %d %d %r" % (off, W, x))
-            for dsize in {size, 0, (off + W) // 8 - 1 if (off + W) // 8 else 0}:
-                data = bytes(rng.getrandbits(8) for _ in range(dsize))
-                got = py.get_float(data, off, W)
-                add({"ev": "getf", "W": W, "buf": list(data), "size": dsize, "off": off, "val": list(struct.pack("<d" if W == 64 else "<f", got)) if W != 32 or got == got else list(struct.pack("<f", got))},
-                    "py", "get_float %d %d %s" % (off, W, data.hex()))
-        for n in (1, 3, 8, 11):
-            bits = [rng.getrandbits(1) for _ in range(n)]
-            size = (off + n + 7) // 8 + 1
-            out = py.set_bits(size, off, bits)
-            val = sum(b << i for i, b in enumerate(bits))
-            add({"ev": "setu", "buf": [0] * size, "size": size, "off": off, "len": n, "val": list(struct.pack("<Q", val)), "rc": "none", "out": list(out), "kinds": False}, "py", "set_bits %d %r" % (off, bits))
-            data = bytes(rng.getrandbits(8) for _ in range(rng.choice([size, 1, 0])))
-            got = py.get_bits(data, off, n)
-            add({"ev": "getu", "W": 64, "buf": list(data), "size": len(data), "off": off, "len": n, "val": list(struct.pack("<Q", sum(b << i for i, b in enumerate(got))))}, "py", "get_bits %d %d %s" % (off, n, data.hex()))
+    for rec, cmd in py_stimuli(rng, ctx.quick):
+        try:
+            add(py_exec(py, rec), "py", cmd, rec["py"])
+        except Exception as ex:  # pylint: disable=broad-except
+            ctx.violation("C14|py|prim.noret|%s" % rec["ev"], "the Python primitive raised %s: %s on %s" % (type(ex).__name__, str(ex)[:200], cmd),
+                          {"target": "py", "cmd": cmd, "ev": rec["ev"], "record": rec})
     # 4. judge
     rej = tlc.validate_traces(ctx, "BitPrimsTrace", records, batch=ctx.pick(4000, 8000))
     for rid, clause in sorted(rej.items()):
@@ -243,6 +207,8 @@ def run(ctx):
         if clause.startswith("harness"):
             raise MachineryFailure("bad record %r" % info)
         rec = next(r for r in records if r["id"] == rid)
+        if info.get("pyop"):
+            rec = dict(rec, py=info["pyop"])
         ctx.violation("C14|%s|%s|%s" % (info["target"].split("_")[0], clause, info["ev"]), "%s on %s: %s" % (clause, info["target"], info["cmd"][:200]),
                       {"target": info["target"], "cmd": info["cmd"], "ev": info["ev"], "record": rec})
     # binding self-test
@@ -264,11 +230,97 @@ def run(ctx):
     ctx.assumptions += ["TLC + BitPrimsP/Ieee specs are the oracle", "the property's sweep over all 2^32 float32 values is replaced by the structured boundary set + random (DESIGN §7)"]
 
 
+def py_stimuli(rng, quick):
+    """(record without its observed part, label) for the Python support library; py_exec fills in what the real code returns"""
+    res = []
+    for off in ([0, 1, 3, 8, 13, 16] if quick else range(0, 24)):
+        for ln in ([1, 2, 7, 8, 9, 16, 17, 32, 33, 63, 64] if quick else range(1, 65)):
+            size = (off + ln + 7) // 8 + 1
+            v = rng.getrandbits(ln)
+            res.append(({"ev": "setu", "buf": [0] * size, "size": size, "off": off, "len": ln, "val": list(struct.pack("<Q", v)), "rc": "none", "kinds": False, "py": ["set_int", v, False]},
+                        "set_int u %d %d %d" % (off, ln, v)))
+            if ln >= 2:
+                sv = v - (1 << ln) if v >> (ln - 1) else v
+                res.append(({"ev": "setu", "buf": [0] * size, "size": size, "off": off, "len": ln, "val": list(struct.pack("<Q", sv & ((1 << 64) - 1))), "rc": "none", "kinds": False,
+                             "py": ["set_int", sv, True]}, "set_int s %d %d %d" % (off, ln, sv)))
+            # declared sizes: enough, short by two, empty, ending inside / right before the field, ending one and two bytes before an ALIGNED fetch starts
+            for dsize in sorted({size, max(size - 2, 0), 0, (off + ln) // 8, max(off // 8 - 1, 0), max(off // 8 - 2, 0)}):
+                data = bytes(rng.getrandbits(8) for _ in range(dsize))
+                res.append(({"ev": "getu", "W": 64, "buf": list(data), "size": dsize, "off": off, "len": ln, "py": ["get_int", False]}, "get_int u %d %d %s" % (off, ln, data.hex())))
+                if ln >= 2:
+                    res.append(({"ev": "geti", "W": 64, "buf": list(data), "size": dsize, "off": off, "len": ln, "py": ["get_int", True]}, "get_int s %d %d %s" % (off, ln, data.hex())))
+        for W in (16, 32, 64):
+            size = (off + W + 7) // 8 + 1
+            pat = rng.getrandbits(W)
+            x = struct.unpack({16: "<e", 32: "<f", 64: "<d"}[W], pat.to_bytes(W // 8, "little"))[0]
+            if x == x:
+                # the value handed over is exactly representable: the written pattern must be the same number
+                res.append(({"ev": "setf", "W": W, "buf": [0] * size, "size": size, "off": off, "f": list(struct.pack("<d" if W == 64 else "<f", x)), "rc": "none", "py": ["set_float", x]},
+                            "set_float %d %d %r" % (off, W, x)))
+            for dsize in sorted({size, 0, (off + W) // 8 - 1 if (off + W) // 8 else 0, max(off // 8 - 1, 0)}):
+                data = bytes(rng.getrandbits(8) for _ in range(dsize))
+                res.append(({"ev": "getf", "W": W, "buf": list(data), "size": dsize, "off": off, "py": ["get_float"]}, "get_float %d %d %s" % (off, W, data.hex())))
+        for n in (1, 3, 8, 11, 19):
+            bits = [rng.getrandbits(1) for _ in range(n)]
+            size = (off + n + 7) // 8 + 1
+            val = sum(b << i for i, b in enumerate(bits))
+            res.append(({"ev": "setu", "buf": [0] * size, "size": size, "off": off, "len": n, "val": list(struct.pack("<Q", val)), "rc": "none", "kinds": False, "py": ["set_bits", bits]},
+                        "set_bits %d %r" % (off, bits)))
+            for dsize in sorted({size, 1, 0, max(off // 8 - 1, 0)}):
+                data = bytes(rng.getrandbits(8) for _ in range(dsize))
+                res.append(({"ev": "getu", "W": 64, "buf": list(data), "size": len(data), "off": off, "len": n, "py": ["get_bits"]}, "get_bits %d %d %s" % (off, n, data.hex())))
+    return res
+
+
+def py_prefix(rec):
+    """Serializer.buffer exposes the written prefix only: compare that region (it must still hold the addressed range)"""
+    if rec["ev"] in ("setu", "setf") and "out" in rec and len(rec["out"]) != len(rec["buf"]):
+        return dict(rec, buf=rec["buf"][:len(rec["out"])], size=len(rec["out"]))
+    return rec
+
+
+def py_exec(py, rec):
+    """run one Python primitive stimulus on the real support library; returns the completed record (exceptions propagate)"""
+    r = {k: v for k, v in rec.items() if k != "py"}
+    op = rec["py"]
+    data = bytes(rec["buf"])
+    if op[0] == "set_int":
+        r["out"] = list(py.set_int(rec["size"], rec["off"], op[1], rec["len"], op[2]))
+    elif op[0] == "set_float":
+        r["out"] = list(py.set_float(rec["size"], rec["off"], rec["W"], op[1]))
+    elif op[0] == "set_bits":
+        r["out"] = list(py.set_bits(rec["size"], rec["off"], op[1]))
+    elif op[0] == "get_int":
+        got = py.get_int(data, rec["off"], rec["len"], op[1])
+        r["val"] = list(struct.pack("<q" if op[1] else "<Q", got))
+    elif op[0] == "get_float":
+        got = py.get_float(data, rec["off"], rec["W"])
+        r["val"] = list(struct.pack("<d" if rec["W"] == 64 else "<f", got))
+    elif op[0] == "get_bits":
+        got = py.get_bits(data, rec["off"], rec["len"])
+        r["val"] = list(struct.pack("<Q", sum(b << i for i, b in enumerate(got))))
+    else:
+        raise MachineryFailure("unknown python primitive stimulus %r" % (op,))
+    return r
+
+
 def replay(ctx, case):
     """re-run one primitive command on the named target"""
     name = case["target"]
     if name == "py":
-        raise MachineryFailure("python primitive cases are re-run by the full check (./check C14)")
+        rec = dict(case["record"])
+        if "py" not in rec:
+            raise MachineryFailure("this replay file predates the replayable Python stimuli: re-run ./check C14")
+        try:
+            done = py_exec(PyPrims(ctx), rec)
+        except Exception as ex:  # pylint: disable=broad-except
+            ctx.violation("C14|py|prim.noret|%s" % case["ev"], "the Python primitive raised %s: %s" % (type(ex).__name__, str(ex)[:200]), case)
+            return
+        done = py_prefix(done)
+        done["id"] = 1
+        for rid, clause in tlc.validate_traces(ctx, "BitPrimsTrace", [done]).items():
+            ctx.violation("C14|py|%s|%s" % (clause, case["ev"]), "%s on py" % clause, case)
+        return
     lang = "cpp" if name.startswith("cpp") else "c"
     nt = NativePrims(ctx.scratch, lang, {"target_endianness": "little"} if "little" in name else {}, name.replace("_asan", ""), sanitize="asan" in name)
     res = nt.run([(1, case["cmd"])])
